@@ -856,6 +856,48 @@ def r_initorder(prog, R):
         r.viol(k, f.name, f.loc(c["ln"]), "ares_init_by_sysconfig() runs before ares_set_socket_functions_def(): %s() reads channel->sock_funcs.aif_* to validate the interface of a link-local server, finds NULL and drops the server -- a valid 'nameserver fe80::1%%eth0' line has no effect at first init" % reader.name)
 
 
+def r_ignored(prog, R):
+    """An entry the collector decides to ignore silently (it assigns ARES_SUCCESS to its status and leaves without inserting) must not have
+    touched the caller's list: an empty list that was created on the way is later applied as "the configured servers" and removes every
+    server the channel had."""
+    r = R.rule("R-C15-IGNORED", "a server entry that is silently ignored (link-local address without a usable interface, blacklisted address) leaves the collected list exactly as it was: "
+               "no path stores to the caller's list pointer and then takes a 'status = ARES_SUCCESS, leave without inserting' exit", floor=1,
+               analysis="path search from each store through the list out-parameter to a silent-ignore exit, the insertion call as barrier")
+    f = prog.func("ares_sconfig_append")
+    ins = lambda e2: e2["k"] == "call" and (e2["e"].get("callee") or "").startswith("ares_llist_insert")
+    stores = []
+    for b, i, el in f.elements():
+        if el["k"] == "asg":
+            l = strip(el["e"]["l"])
+            if l is not None and l.get("k") == "un" and l["op"] == "*" and is_var(strip(l["e"])) and strip(l["e"]).get("vk") == "param":
+                stores.append((b, i, el))
+    if not r.require(bool(stores), "ares_sconfig_append: no store through the list out-parameter found"):
+        return
+    for b, i, el in stores:
+        pred = reach_avoiding(f, b.id, (), ins, i + 1)
+        hit = None
+        for bid in [b.id] + [x for x in pred if x != b.id]:
+            blk = f.blocks[bid]
+            lo = i + 1 if bid == b.id else 0
+            for j in range(lo, len(blk.els)):
+                e2 = blk.els[j]
+                if ins(e2):
+                    break
+                if e2["k"] == "asg" and is_var(strip(e2["e"]["l"]), "status") and name_of_const(e2["e"].get("r")) == "ARES_SUCCESS":
+                    # from here to the exit without inserting and without another status
+                    if can_reach_exit_avoiding(f, blk, j, lambda e3: ins(e3) or (e3["k"] == "asg" and is_var(strip(e3["e"]["l"]), "status"))):
+                        hit = e2
+                        break
+            if hit:
+                break
+        k = "fn=%s store %s not followed by a silent-ignore exit" % (f.name, render(el["e"]["l"]))
+        if hit:
+            r.viol(k, f.name, f.loc(hit), "ares_sconfig_append stores to %s and can then leave at '%s' without inserting anything: the caller is left with a new, empty server list, which "
+                   "ares_sysconfig_apply() applies as the configured servers -- a `nameserver fe80::1` line (ignored: no interface) removes every server of the channel on ares_reinit()" % (render(el["e"]["l"]), hit.get("t", "")))
+        else:
+            r.ok(k, f.loc(el))
+
+
 def run(prog, R, tier):
     R.assume("callees are given valid (non-NULL) pointers by the configuration parsers (defensive NULL-argument returns are not part of the return sets)")
     ownrules.own_rule(prog, R, "R-C15-OWN", FILES, floor=30)
@@ -870,5 +912,6 @@ def run(prog, R, tier):
     r_lineloop(prog, R)
     r_linefeed(prog, R)
     r_initorder(prog, R)
+    r_ignored(prog, R)
     ownrules.realloc_rule(prog, R, "R-C15-REALLOC")
     outinit.outinit_rule(prog, R, "R-C15-OUTINIT", floor=10)
